@@ -268,6 +268,15 @@ func checkC15(c *Check) {
 		run := newSandbox()
 		defer os.RemoveAll(run)
 		rr := RunBash(run, tr.Script, RunOpts{Timeout: 120 * time.Second})
+		if rr.TimedOut {
+			// 40 short calls never need two minutes; still, the verdict is taken on logical steps
+			if verdict, r2 := DecideTimeout(tr.Script, 3000000, RunOpts{}, newSandbox); verdict == "finished" {
+				rr = r2
+			} else if verdict == "inconclusive" {
+				c.Inconclusive("bash watchdog fired twice without a step-limit verdict")
+				return nil, expect, src.String(), "INCONCLUSIVE-WATCHDOG", -1, false
+			}
+		}
 		got := map[int]string{}
 		// attribute output lines to tuples by their leading index; lines without an index belong to the previous tuple (embedded newlines)
 		last := -1
@@ -289,11 +298,17 @@ func checkC15(c *Check) {
 	parallelDo(len(jobs), 16, func(ji int) {
 		j := jobs[ji]
 		got, expect, src, stderr, exit, timedOut := runBatch(j.lo, j.hi)
+		if stderr == "INCONCLUSIVE-WATCHDOG" {
+			return
+		}
 		clean := got != nil && stderr == "" && exit == 0 && !timedOut
 		if !clean && j.hi-j.lo > 1 {
 			// isolate: one tuple per script
 			for i := j.lo; i < j.hi; i++ {
 				g1, e1, s1, err1, ex1, to1 := runBatch(i, i+1)
+				if err1 == "INCONCLUSIVE-WATCHDOG" {
+					continue
+				}
 				c.Eval(tuples[i].key, true)
 				if g1 == nil || err1 != "" || ex1 != 0 || to1 || g1[i] != e1[i] {
 					c.Violation(tuples[i].key, fmt.Sprintf("got %q, Go's strings.%s gives %q (exit %d, stderr %q)", g1[i], tuples[i].fn, e1[i], ex1, clip(err1, 200)), map[string]string{"main.tsh": s1})
